@@ -2,7 +2,7 @@
 From Coq Require Import List Ascii String Bool Arith NArith.
 From GoProbe.Base Require Import CorrLib.
 From Coq Require Import Permutation.
-From GoProbe.C10 Require Import Model ProofsTok ProofsSan ProofsSpell1 ProofsSpell6.
+From GoProbe.C10 Require Import Model ProofsTok ProofsSan ProofsSpell1 ProofsSpell6 ProofsDepth.
 Import ListNotations.
 
 (* For every text and every iteration order of the conversion map, preparing the condition ends in
@@ -20,6 +20,16 @@ Theorem c10_parse_total : forall ts,
   (exists p, p <= List.length ts /\ parse ts = Rejected p).
 Proof. exact parse_total. Qed.
 Print Assumptions c10_parse_total.
+
+(* Nesting bound. `parse_cst` is the parser keeping one `TPar` node per parenthesised group (Go drops
+   them: parse = strip after parse_cst). If a token list is accepted, it is exactly the rendering
+   (`unparse`) of a syntax tree whose parentheses are nested at most 512 deep -- `par_depth` takes the
+   maximum over the operands of & and |, so conditions standing beside a group do not enlarge the bound.
+   The recursion of the parser is on the remaining depth, hence at most 513 nested calls of p_disj. *)
+Theorem c10_depth_bound : forall ts c, parse_cst ts = Accepted c ->
+  unparse c = ts /\ par_depth c <= 512 /\ parse ts = Accepted (strip c).
+Proof. exact depth_bound_tokens. Qed.
+Print Assumptions c10_depth_bound.
 
 (* Tokens joined by single blanks tokenize to themselves: for all byte strings. *)
 Theorem c10_canonical_stable : forall s, tokenize (join (tokenize s)) = tokenize s.
@@ -159,3 +169,10 @@ Example c10_example_plain :
   plain_toks (fst (tokenize_go (sanitize all_groups (B "dport eq 80 AND not proto = TCP")))) = true /\
   plain_toks (fst (tokenize_go (sanitize all_groups (B "sip=l&dport=80")))) = false.
 Proof. split; vm_compute; reflexivity. Qed.
+
+Example c10_example_depth :
+  let nest := fun n d => List.concat (repeat [B "dport"; B "="; B "80"; B "&"] n) ++ repeat (B "(") d
+                         ++ [B "dport"; B "="; B "81"] ++ repeat (B ")") d in
+  (exists c, parse_cst (nest 3 512) = Accepted c /\ par_depth c = 512) /\
+  parse (nest 3 513) = Rejected (3 * 4 + 513) /\ parse (nest 0 513) = Rejected 513.
+Proof. cbv zeta. split; [eexists; split; vm_compute; reflexivity | split; vm_compute; reflexivity]. Qed.
